@@ -23,7 +23,8 @@ func init() {
 			"C02.decomp: DefaultFormatter splits n by a chain of divisions by 1000, 100, 10, each dividend being the previous remainder; the first quotient is the trip count of the loop writing 'M', the next quotients feed toHundreds/toTens, the last remainder toUnits; the writes occur in that order; f is passed unchanged. " +
 			"C02.alpha: every literal the formatter can emit for a position, in both letter cases, is a member of that position's capture-group language of roman.pattern (so Valid and the parser accept every formatted numeral). " +
 			"C02.lower: toLower evaluated on a one-element slice for each class of a partition of all byte values (the seven letters as themselves, the gaps as an opaque byte known to lie in the gap; that elements are treated alike is the shape of its range loop): each letter becomes its own ASCII lower case, every other byte is unchanged; it is applied only when FormatLowerCase is set, to the appended bytes. C02.value: the parser's value function, extracted as a decision table, maps every literal the formatter can emit (both letter cases) back to its digit. " +
-			"C02.flags: the eight base Format flags are distinct single bits and FormatLong4x/FormatLong9x/FormatLong are exactly the documented unions. C02.zero: n = 0 ↦ buffer unchanged; empty input ↦ (0, nil) unless RuleDisableEmptyAsZero. S-DELEG with verb table L, l, R, r, default.",
+			"C02.flags: the eight base Format flags are distinct single bits and FormatLong4x/FormatLong9x/FormatLong are exactly the documented unions. C02.zero: n = 0 ↦ buffer unchanged; empty input ↦ (0, nil) unless RuleDisableEmptyAsZero. S-DELEG with verb table L, l, R, r, default. " +
+			"C02.valid: Valid and DefaultParser share the guard and match the same pattern on the whole input, for every input type (C10.same under this property). C02.buffer: the formatted numeral is appended to the caller's buffer and shares no storage with anything a later call can write (C16's append-only and buffer-independence rules on roman.DefaultFormatter).",
 		NotDecided:  []string{"the composition over whole numbers: that thousands·1000 + hundreds·100 + tens·10 + units of the parser is summed without overflow for every n the formatter can print (C10's side condition on len(capture 1) × 1000)", "which n fit within MaxInputLength (128 bytes)"},
 		Assumptions: []string{"bits.Div64(0, x, c) returns quotient and remainder of x / c"},
 		Technique:   "constant-table reading + decision-table extraction + DFA membership + dataflow over go/ssa",
@@ -50,6 +51,17 @@ func runC02(e *Env) {
 	e.S.Floor("C02.lower", 7)
 	e.S.Floor("C02.zero", 3)
 	e.S.Floor("C02.deleg", 16)
+	// "is accepted by the validity check": Valid matches what the parser matches, for every input type (C10.same)
+	e.As(map[string]string{"C10.same": "C02.valid"}, func() { ruleC10Same(e) })
+	e.S.Floor("C02.valid", 3)
+	// the formatted numeral is the caller's: appended to its buffer, no storage shared with later calls (C16's rules)
+	if df := e.Fn("C02.buffer", "roman", "DefaultFormatter"); df != nil {
+		e.FlowAs(map[string]string{"C16.append": "C02.buffer", "C16.indep": "C02.buffer"}, func(c *flow.Ctx) {
+			c.RuleAppendOnly(df)
+			c.RuleBufIndependent(df)
+		})
+	}
+	e.S.Floor("C02.buffer", 2)
 }
 
 type romanPos struct {
